@@ -1,3 +1,123 @@
-//! API histories (C10): parse / tree / clone / render in any order.
+//! API histories (C10): one-shot routes and the staged route parse_html -> dom_to_render_tree ->
+//! (clone) -> render_*, in any order, on live handles.  Every step's abstract result is recorded.
+use crate::exec::{outcome_json, plain_lines, tagged_lines, AnnJson, Outcome};
+use html2text::config::{self, Config};
+use html2text::render::{PlainDecorator, RichDecorator, TextDecorator, TrivialDecorator};
+use html2text::{Error, RcDom, RenderTree};
 use serde_json::{json, Value};
-pub fn run_history(_case: &Value, _h: &Value, _dom_max: usize) -> (Value, Value) { (json!([]), json!([])) }
+use std::panic::{catch_unwind, AssertUnwindSafe};
+
+fn err(e: Error) -> Outcome {
+    match e { Error::TooNarrow => Outcome::Narrow, Error::CssParseError => Outcome::CssErr, o => Outcome::Fail(format!("{:?}", o)) }
+}
+/// join a tagged rendering to plain lines (what the string route prints)
+fn lines_as_plain<A: AnnJson + std::fmt::Debug + Eq + PartialEq + Clone + Default>(l: &[html2text::render::TaggedLine<Vec<A>>]) -> Value {
+    let mut v = tagged_lines(l);
+    // strip tags and markers: keep [code, width]
+    if let Some(ls) = v["lines"].as_array_mut() {
+        for ln in ls.iter_mut() {
+            let cells: Vec<Value> = ln.as_array().unwrap().iter().filter(|c| c[0].as_i64().unwrap_or(0) >= 0).map(|c| json!([c[0], c[1]])).collect();
+            *ln = Value::Array(cells);
+        }
+    }
+    v
+}
+
+struct World<D: TextDecorator> { mk: Box<dyn Fn() -> Config<D>>, docs: Vec<Vec<u8>>, doms: Vec<RcDom>, trees: Vec<Option<RenderTree>> }
+
+fn step<D: TextDecorator>(wd: &mut World<D>, op: &Value, rich: Option<&dyn Fn(Config<D>, &[u8], usize) -> Outcome>, rich_tree: Option<&dyn Fn(&Config<D>, RenderTree, usize) -> Outcome>) -> Value
+where D::Annotation: AnnJson + std::fmt::Debug + Eq + PartialEq + Clone + Default {
+    let name = op["op"].as_str().unwrap_or("");
+    let w = op.get("w").and_then(|x| x.as_u64()).unwrap_or(0) as usize;
+    let route = op.get("route").and_then(|x| x.as_str()).unwrap_or("string");
+    let r = catch_unwind(AssertUnwindSafe(|| -> (Outcome, Value) {
+        match name {
+            "oneshot" => {
+                let d = &wd.docs[op["doc"].as_u64().unwrap_or(1) as usize - 1];
+                let c = (wd.mk)();
+                let o = match route {
+                    "lines" => match c.lines_from_read(&d[..], w) { Ok(l) => Outcome::Ok(lines_as_plain(&l)), Err(e) => err(e) },
+                    "coloured" => match rich { Some(f) => f(c, d, w), None => Outcome::Fail("no coloured".into()) },
+                    _ => match c.string_from_read(&d[..], w) { Ok(s) => Outcome::Ok(plain_lines(&s)), Err(e) => err(e) },
+                };
+                (o, json!(0))
+            }
+            "parse" => {
+                let d = &wd.docs[op["doc"].as_u64().unwrap_or(1) as usize - 1];
+                match (wd.mk)().parse_html(&d[..]) { Ok(dom) => { wd.doms.push(dom); (Outcome::Ok(json!({"lines": [], "sw": []})), json!(wd.doms.len())) } Err(e) => (err(e), json!(0)) }
+            }
+            "tree" => {
+                let k = op["dom"].as_u64().unwrap_or(1) as usize - 1;
+                match (wd.mk)().dom_to_render_tree(&wd.doms[k]) { Ok(t) => { wd.trees.push(Some(t)); (Outcome::Ok(json!({"lines": [], "sw": []})), json!(wd.trees.len())) } Err(e) => (err(e), json!(0)) }
+            }
+            "clone" => {
+                let t = op["tree"].as_u64().unwrap_or(1) as usize - 1;
+                let c = wd.trees[t].as_ref().expect("live tree").clone();
+                wd.trees.push(Some(c));
+                (Outcome::Ok(json!({"lines": [], "sw": []})), json!(wd.trees.len()))
+            }
+            "render" => {
+                let t = op["tree"].as_u64().unwrap_or(1) as usize - 1;
+                let tree = wd.trees[t].take().expect("live tree");
+                let c = (wd.mk)();
+                let o = match route {
+                    "lines" => match c.render_to_lines(tree, w) { Ok(l) => Outcome::Ok(lines_as_plain(&l)), Err(e) => err(e) },
+                    "coloured" => match rich_tree { Some(f) => f(&c, tree, w), None => Outcome::Fail("no coloured".into()) },
+                    _ => match c.render_to_string(tree, w) { Ok(s) => Outcome::Ok(plain_lines(&s)), Err(e) => err(e) },
+                };
+                (o, json!(0))
+            }
+            _ => (Outcome::Fail("unknown op".into()), json!(0)),
+        }
+    }));
+    let (o, h) = match r { Ok(x) => x, Err(_) => (Outcome::Panic(crate::exec::LAST_PANIC.with(|p| p.borrow().clone())), json!(0)) };
+    let mut rec = op.clone();
+    rec["res"] = outcome_json(o);
+    rec["handle"] = h;
+    if rec.get("w").is_none() { rec["w"] = json!(0); }
+    if rec.get("route").is_none() { rec["route"] = json!(""); }
+    for k in ["doc", "dom", "tree"] { if rec.get(k).is_none() { rec[k] = json!(0); } }
+    rec
+}
+
+fn run_with<D: TextDecorator + 'static>(mk: Box<dyn Fn() -> Config<D>>, case: &Value, h: &Value,
+    rich: Option<&dyn Fn(Config<D>, &[u8], usize) -> Outcome>, rich_tree: Option<&dyn Fn(&Config<D>, RenderTree, usize) -> Outcome>) -> Value
+where D::Annotation: AnnJson + std::fmt::Debug + Eq + PartialEq + Clone + Default {
+    let docs: Vec<Vec<u8>> = case["docs"].as_array().map(|a| a.iter().map(|d| d.as_str().unwrap_or("").as_bytes().to_vec()).collect()).unwrap_or_default();
+    let mut wd = World { mk, docs, doms: vec![], trees: vec![] };
+    let mut out = vec![];
+    for op in h.as_array().map(|a| a.as_slice()).unwrap_or(&[]) { out.push(step(&mut wd, op, rich, rich_tree)); }
+    Value::Array(out)
+}
+
+fn apply_simple<D: TextDecorator>(mut c: Config<D>, ops: &[Value]) -> Config<D> {
+    for op in ops {
+        let n = op[1].as_u64().unwrap_or(0) as usize;
+        let b = op[1].as_bool().unwrap_or(false);
+        c = match op[0].as_str().unwrap_or("") {
+            "max_wrap" => c.max_wrap_width(n), "min_wrap" => c.min_wrap_width(n), "pad" => c.pad_block_width(),
+            "overflow" => c.allow_width_overflow(), "raw" => c.raw_mode(b), "noborders" => c.no_table_borders(),
+            "nolinkwrap" => c.no_link_wrapping(), "footnotes" => c.link_footnotes(b), "strike" => c.unicode_strikeout(b),
+            "decorate" => c.do_decorate(), _ => c,
+        };
+    }
+    c
+}
+
+pub fn run_history(case: &Value, h: &Value, dom_max: usize) -> (Value, Value) {
+    let cfg = case.get("cfg").cloned().unwrap_or(json!({"deco": "plain", "ops": []}));
+    let ops: Vec<Value> = cfg["ops"].as_array().cloned().unwrap_or_default();
+    let docs: Vec<Value> = case["docs"].as_array().map(|a| a.iter().map(|d| crate::dom::abstract_dom(d.as_str().unwrap_or("").as_bytes(), dom_max).unwrap_or(json!([{"k": "big"}]))).collect()).unwrap_or_default();
+    let steps = match cfg["deco"].as_str().unwrap_or("plain") {
+        "rich" => {
+            let o2 = ops.clone();
+            let col = |c: Config<RichDecorator>, d: &[u8], w: usize| match c.coloured(d, w, |_, s| s.to_string()) { Ok(s) => Outcome::Ok(plain_lines(&s)), Err(e) => err(e) };
+            let colt = |c: &Config<RichDecorator>, t: RenderTree, w: usize| match c.render_coloured(t, w, |_, s| s.to_string()) { Ok(s) => Outcome::Ok(plain_lines(&s)), Err(e) => err(e) };
+            run_with(Box::new(move || apply_simple(config::rich(), &o2)), case, h, Some(&col), Some(&colt))
+        }
+        "trivial" => { let o2 = ops.clone(); run_with(Box::new(move || apply_simple(config::with_decorator(TrivialDecorator::new()), &o2)), case, h, None, None) }
+        "plain_nd" => { let o2 = ops.clone(); run_with::<PlainDecorator>(Box::new(move || apply_simple(config::plain_no_decorate(), &o2)), case, h, None, None) }
+        _ => { let o2 = ops.clone(); run_with::<PlainDecorator>(Box::new(move || apply_simple(config::plain(), &o2)), case, h, None, None) }
+    };
+    (Value::Array(docs), steps)
+}
